@@ -28,7 +28,7 @@ PROPS = ("C07",)
 def plan(tier, seed):
     if tier == "quick":
         return [{"kind": "faults", "tier": tier, "seed": seed, "shard": i, "n": 4, "subprocess": True} for i in range(14)]
-    return [{"kind": "faults", "tier": tier, "seed": seed, "shard": i, "n": 40, "subprocess": True} for i in range(32)]
+    return [{"kind": "faults", "tier": tier, "seed": seed, "shard": i, "n": 110, "subprocess": True} for i in range(32)]
 
 
 def ack_adversary(run, r, c):
